@@ -212,6 +212,10 @@ def check_property(mod, world, tier="quick", seed=0):
         b["count"] += 1
         b["secs"] = round(b["secs"] + ob["secs"], 3)
 
+    # a clause is a *property* obligation of this check iff its id names this property (ids like C06+C10/...)
+    for o in obligs:
+        if o["tag"] in ("property", "helper"):
+            o["tag"] = "property" if prop in o["name"].split("/")[0].split("+") else "helper"
     kf = load_known_findings()
     uncovered = [o for o in obligs if o["tag"] == "cover"]
     obligs = [o for o in obligs if o["tag"] != "cover"]
